@@ -12,7 +12,7 @@ FUNCTIONS = ['emd.sift._find_extrema', 'emd.sift.compute_parabolic_extrema', 'em
 BOUNDS = {
     'quick': 'N <= 6 unbounded symbolic real samples with ties (extrema clause; subsumes every 3-level sequence up to that length), '
              'N = 6 for padding (pad widths 0..5, peaks/troughs/abs_peaks; user-supplied magnitude padding mode mean) and for envelopes (pad widths 1..3, {splrep, pchip, mono_pchip} x '
-             '{upper, lower, combined}); parabolic refinement: N <= 5 (extrema formula) and N = 5 (envelope grid)',
+             '{upper, lower, combined}; also symbolic integer-dtype input (8-bit model) for splrep/upper and pchip/lower); parabolic refinement: N <= 5 (extrema formula) and N = 5 (envelope grid)',
     'thorough': 'N <= 9 (extrema), N <= 7 (padding, envelopes, pad widths 1..5) and N = 8 for pad width 2 (splrep), parabolic N <= 7 (formula) / 6 (envelope)',
 }
 OUTSIDE = 'longer signals; float rounding inside FITPACK/pchip; interp_envelope with pad_width=0 (unpadded interior extrema can never ' \
@@ -59,6 +59,9 @@ def configs(tier):
         for mode in ('upper', 'lower'):
             out.append(('env-N5-%s-%s-w2-parabolic' % (method, mode),
                         {'kind': 'env', 'N': 5, 'method': method, 'mode': mode, 'w': 2, 'parab': True}))
+    # integer recordings handed straight to the envelope routine: the envelope is a real-valued interpolant whatever the input dtype
+    for method, mode in ((('splrep', 'upper'), ('pchip', 'lower')) if q else (('splrep', 'upper'), ('splrep', 'combined'), ('pchip', 'lower'), ('mono_pchip', 'upper'))):
+        out.append(('env-N6-%s-%s-w2-int8' % (method, mode), {'kind': 'env', 'N': 6, 'method': method, 'mode': mode, 'w': 2, 'parab': False, 'int_bits': 8}))
     if not q:
         # deeper bounds, last so that the tier budget only ever trims these
         out.append(('extrema-N9', {'kind': 'extrema', 'N': 9}))
